@@ -486,6 +486,9 @@ def gen_procedures(rng, tier, seed):
         # the peer's host programs a new random address after the connection is up (privacy), then the peer disappears
         case['peer_readdr'] = rng.random() < 0.4
         case['peer_feature_mask'] = rng.choice([None, None, rng.getrandbits(64), rng.getrandbits(64) & rng.getrandbits(64), 0])
+        # the host first "accepts" a connection request from the peer it is already connected to (there is none pending), asking
+        # for either role: the procedure that follows on the live handle must still be concluded for that handle
+        case['stray_accept'] = rng.choice([None, None, 0, 1]) if proc.startswith('classic_remote') else None
     return case
 
 
@@ -622,8 +625,12 @@ def run_procedures(case):
             n1.device.on('sco_request', on_sco_request)
             cmds.append(hci.HCI_Enhanced_Setup_Synchronous_Connection_Command(connection_handle=handle, **params))
         elif proc == 'classic_remote_features':
+            if case.get('stray_accept') is not None and situation != 'unknown_handle':
+                cmds.append(hci.HCI_Accept_Connection_Request_Command(bd_addr=n1.controller.public_address, role=case['stray_accept']))
             cmds.append(hci.HCI_Read_Remote_Supported_Features_Command(connection_handle=handle))
         elif proc == 'classic_remote_ext_features':
+            if case.get('stray_accept') is not None and situation != 'unknown_handle':
+                cmds.append(hci.HCI_Accept_Connection_Request_Command(bd_addr=n1.controller.public_address, role=case['stray_accept']))
             cmds.append(hci.HCI_Read_Remote_Extended_Features_Command(connection_handle=handle, page_number=1))
         if 'acl_disconnect_by_peer' in situation:
             later.append((case['when'], lambda: sim.loop.create_task(n1.host.send_command(hci.HCI_Disconnect_Command(connection_handle=peer_conn.handle, reason=0x13)))))
